@@ -9,6 +9,7 @@ import DtailModel.Generated.Code
 import DtailModel.Lemmas.GoRT
 import DtailModel.Model.Auth
 import DtailModel.Lemmas.GoStr
+set_option autoImplicit false
 namespace Dtail.GenAuth
 open Dtail Dtail.Go Dtail.Gen.Auth
 
